@@ -3,6 +3,7 @@
    Run by bin/check in the directory ocaml/ (the facts are re-extracted first). *)
 From Coq Require Import Extraction ExtrOcamlBasic List.
 From Coq.Strings Require Import Byte.
+From GV Require Norm.ClassOrder.
 From GV Require Import Base.Bytes Base.Tok Skel.Compose Norm.Norm Inline.Css Inline.Tag Parser.Pre Facts.ParserConsts.
 
 Definition m_strip := strip_non_mso_comments.
@@ -41,5 +42,6 @@ Definition m_inline_relaxed_diff (css before after : bytes) : option nat :=
 Definition m_parse_rules (css : bytes) : list (list bytes * list (bytes * bytes)) :=
   map (fun r => (selectors r, declarations r)) (parse_rules css).
 Definition m_extract_class := extract_class.
+Definition m_classorder := Norm.ClassOrder.normalize.
 
-Extraction "model.ml" m_inline_relaxed_diff m_inline_diff m_parse_rules m_extract_class m_norm m_equiv_diff m_std_texts m_mso_texts m_merge_check m_strip m_escamp m_entities m_wrap m_preprocess m_byte_to_nat m_lex m_check_std m_check_mso m_no_vml_outside.
+Extraction "model.ml" m_classorder m_inline_relaxed_diff m_inline_diff m_parse_rules m_extract_class m_norm m_equiv_diff m_std_texts m_mso_texts m_merge_check m_strip m_escamp m_entities m_wrap m_preprocess m_byte_to_nat m_lex m_check_std m_check_mso m_no_vml_outside.
